@@ -32,7 +32,6 @@ READY = False
 STATEFUL = True
 THEOREMS = [
 ]
-STRICT_SEQ = os.environ.get("C05_STRICT_SEQ", "") == "1"
 
 RULE = ("one case = one grammar + up to 12 rendered values; distinct by protocol text; non-trivial = at least one "
         "text whose value holds a container with >= 2 entries or a nested container")
@@ -405,16 +404,8 @@ def match(exp, act, parser, path="value"):
         for i, (e, a) in enumerate(zip(exp["seq"], act)):
             if not isinstance(a, ll.TElement) or a.name != e["el"]:
                 return "%s[%d]: sequence element is not the matched %s element: %s" % (path, i, e["el"], _short(a))
+            # the elements stay TElement objects; containers below them are python lists / dicts as anywhere else
             m = match(e["v"], a, parser, "%s[%d]" % (path, i))
-            if m and not STRICT_SEQ:
-                # ProdSequence documents "a list of matched TElement objects": the element is the raw subtree;
-                # it must still denote the data once the clean-up is applied to it
-                try:
-                    c = a.clone()
-                    parser.cleanup(c)
-                    m = match(e["v"], c, parser, "%s[%d](cleaned separately)" % (path, i))
-                except Exception as ex:
-                    m = "%s[%d]: clean-up of the sequence element failed: %s" % (path, i, type(ex).__name__)
             if m:
                 return m
         return None
@@ -1074,11 +1065,15 @@ def tags(case, replies):
         yield "reply:" + " ".join(r.split()[:2] if r.startswith("err") else r.split()[:1])
 
 
-def _under_seq(case):
-    return any("container-under-seq" in it.get("tags", []) for it in case.get("items", []))
-
-
-KNOWN = {"container_under_sequence": _under_seq}
+def corpus():
+    """witness of the defect fixed by 04414b3 (containers below a ProdSequence element stayed raw trees)"""
+    spec = {"prods": [["E", "plain", [["SEQ", ";"]]], ["SEQ", "seq", ["WORD", "LIST"]],
+                      ["LIST", "list", ["[", "ITEM", ",", "]", None, None]], ["ITEM", "plain", [["WORD"], ["LIST"]]]],
+            "keep": None, "smart": True, "start": "E"}
+    items = [{"text": "a [b, c] ;", "tags": ["container-under-seq", "corpus"], "size": [2, 2],
+              "exp": ["ok", {"te": "E", "ch": [{"seq": [{"el": "WORD", "v": "a"}, {"el": "LIST", "v": ["b", "c"]}]}, ";"]}]}]
+    c = make_case(spec, items, {"kind": "corpus", "what": "list below a sequence"})
+    return [c] if c is not None else []
 
 LEVEL_TEXT = ""
 LEVEL_NOTE = ""
